@@ -91,6 +91,8 @@ def write(spec, path):
             ws = wb.create_sheet(sh['title'])
         for addr, v in sh.get('cells', {}).items():
             ws[addr] = dec(v)
+        for addr in sh.get('touched', ()):
+            ws[addr].value = None          # looked at, never given a value: only the sheet's size record knows about it
     # an empty chart sheet cannot be read back by openpyxl: give each one a small bar chart over the first worksheet
     for cs in charts:
         from openpyxl.chart import BarChart, Reference
@@ -104,7 +106,28 @@ def write(spec, path):
     wb._sheets.sort(key=lambda s: order.index(s.title) if s.title in order else -1)
     wb.save(path)
     wb.close()
+    if spec.get('dimension'):
+        forge_dimension(path, spec['dimension'])
     return path
+
+
+def forge_dimension(path, how):
+    """rewrite the <dimension ref=...> record of every worksheet part the way other producers leave it: 'understate' (A1), 'box'
+    (A1:B2), 'overstate' (A1:AZ200), 'drop' (no record). The stored cells are untouched."""
+    import re
+    import shutil
+    import zipfile
+    tmp = path + '.tmp'
+    with zipfile.ZipFile(path) as zin, zipfile.ZipFile(tmp, 'w', zipfile.ZIP_DEFLATED) as zout:
+        for item in zin.infolist():
+            data = zin.read(item.filename)
+            if re.match(r'xl/worksheets/sheet\d+\.xml$', item.filename):
+                text = data.decode('utf-8')
+                new = {'understate': '<dimension ref="A1"/>', 'box': '<dimension ref="A1:B2"/>', 'overstate': '<dimension ref="A1:AZ200"/>', 'drop': ''}[how]
+                text = re.sub(r'<dimension ref="[^"]*"\s*/>', new, text, count=1)
+                data = text.encode('utf-8')
+            zout.writestr(item, data)
+    shutil.move(tmp, path)
 
 
 def sheet(title, cells=None, **kw):
